@@ -145,6 +145,9 @@ def test_strings():
 def sanitisers(chk, rid):
   repo = chk.repo
   classes = templates.dialect_classes(repo)
+  global MAXLEN
+  if chk.tier == 'thorough':
+    MAXLEN = 4
   strings = test_strings()
   chk.extra['alphabet'] = ALPHABET
   chk.extra['strings_per_dialect'] = len(strings)
